@@ -232,6 +232,10 @@ theorem C14_doctype_element (esc : Escapers) (env : Env) (pr : TokenParams) (t :
   | ok full =>
     simp only [hf] at hd ht
     cases hd
+    by_cases hc : (env.nsOfName name == Env.noNamespace &&
+        ((initStack t start).push (Tree.node (.element name) ks).nsDecls).hasDefaultNamespace) = true
+    · simp [hc] at ht
+    simp only [hc, Bool.false_eq_true, if_false] at ht
     split at ht
     · rename_i l hl
       split at hl
